@@ -25,6 +25,7 @@ STEP_BUDGET = 20000
 # quick: every program of every family is replayed (ops <= 2, one family with 3); thorough: one more level.
 def families(quick):
     d = 2 if quick else 3
+    dx = 2     # extended vocabulary: depth 2 in both tiers (the thorough tier enlarges the leaf sets and the replayed sample)
     return {
         'power': dict(Ops='{"Power"}', LeafSet='{3, 10, 32, 35}' if quick else '{3, 9, 10, 32, 35, 36}', MaxOps=d, MaxNodes=d + 3, MaxLeaves=3),
         'powabs': dict(Ops='{"Power","Absolute","Multiply","IntToFloat"}', LeafSet='{3, 9, 27}', MaxOps=d, MaxNodes=d + 3, MaxLeaves=3),
@@ -37,21 +38,26 @@ def families(quick):
         'suminflate': dict(Ops='{"Sum","Inflate","Multiply","Add","InsertAxis"}', LeafSet='{1, 13, 14}', MaxOps=d, MaxNodes=d + 3, MaxLeaves=3),
         'core': dict(Ops='CoreOps', LeafSet='{1, 2, 13}' if quick else '{1, 2, 9, 10, 13, 14, 22}', MaxOps=2, MaxNodes=4 if quick else 5, MaxLeaves=2 if quick else 3),
         # ---- complex dtype: the _real / _imag / _conjugate swap rules, casts, complex arithmetic and structure
-        'cxparts': dict(Ops='{"FloatToComplex","Real","Imag","Conjugate","Multiply","Add","Negative"}', LeafSet='{1, 41, 44}' if quick else '{1, 7, 41, 44, 50}', MaxOps=d, MaxNodes=d + 3, MaxLeaves=3),
-        'cxpow': dict(Ops='{"Power","Conjugate","Multiply","Reciprocal","Absolute","Real"}', LeafSet='{42, 45, 47, 48}' if quick else '{42, 45, 46, 47, 48, 52}', MaxOps=d, MaxNodes=d + 3, MaxLeaves=3),
-        'cxstruct': dict(Ops='{"Inflate","Take","Diagonalize","TakeDiag","Sum","Product","Conjugate","Imag","InsertAxis","Transpose"}', LeafSet='{41, 13, 14}' if quick else '{41, 43, 13, 14}', MaxOps=d, MaxNodes=d + 3, MaxLeaves=3),
-        'cxlin': dict(Ops='{"Determinant","Inverse","Conjugate","Multiply","Real","FloatToComplex","LoopSum","Take"}', LeafSet='{43, 49, 22}' if quick else '{2, 43, 49, 22}', MaxOps=d, MaxNodes=d + 3, MaxLeaves=3),
-        # ---- Einsum, polynomials, search / unique, loop dependent axis lengths
-        'einsum': dict(Ops='{"Einsum","Transpose","InsertAxis","Multiply","Sum"}', LeafSet='{1, 2, 13}' if quick else '{1, 2, 12, 13, 17}', MaxOps=d, MaxNodes=d + 3, MaxLeaves=3),
-        'poly': dict(Ops='{"Polyval","PolyMul","PolyGrad","Legendre","InsertAxis","Take","Multiply"}', LeafSet='{1, 26, 30, 53}' if quick else '{1, 2, 13, 26, 30, 53, 57}', MaxOps=d, MaxNodes=d + 3, MaxLeaves=3),
-        'polycount': dict(Ops='{"PolyDegree","PolyNCoeffs","Take","Add","Multiply"}', LeafSet='{16, 22, 39, 56}', MaxOps=3, MaxNodes=6, MaxLeaves=3),
-        'search': dict(Ops='{"SearchSorted","ArgSort","UniqueMask","UniqueInverse","SizesToOffsets","CompressIndices","Take","InsertAxis"}', LeafSet='{4, 15, 24, 27, 39}' if quick else '{4, 5, 15, 21, 24, 27, 37, 39}', MaxOps=d, MaxNodes=d + 3, MaxLeaves=3),
-        'dyn': dict(Ops='{"RangeN","InsertAxisN","LoopConcat","LoopSum","Take","Inflate","IntToFloat"}', LeafSet='{4, 22, 23, 39}' if quick else '{1, 4, 8, 22, 23, 39}', MaxOps=4, MaxNodes=7, MaxLeaves=3),
+        'cxparts': dict(Ops='{"FloatToComplex","Real","Imag","Conjugate","Multiply","Add","Negative"}', LeafSet='{1, 41}' if quick else '{1, 7, 41, 44, 50}', MaxOps=dx, MaxNodes=dx + 3, MaxLeaves=3),
+        'cxpow': dict(Ops='{"Power","Conjugate","Multiply","Reciprocal","Absolute","Real"}', LeafSet='{42, 45, 47}' if quick else '{42, 45, 46, 47, 48, 52}', MaxOps=dx, MaxNodes=dx + 3, MaxLeaves=3),
+        'cxstruct': dict(Ops='{"Inflate","Take","Diagonalize","TakeDiag","Sum","Product","Conjugate","Imag","InsertAxis","Transpose"}', LeafSet='{41, 13}' if quick else '{41, 43, 13, 14}', MaxOps=dx, MaxNodes=dx + 3, MaxLeaves=3),
+        'cxlin': dict(Ops='{"Determinant","Inverse","Conjugate","Multiply","Real","FloatToComplex","LoopSum","Take"}', LeafSet='{43, 49, 22}' if quick else '{2, 43, 49, 22}', MaxOps=dx, MaxNodes=dx + 3, MaxLeaves=3),
+        # ---- Einsum, polynomials, search / unique, loop dependent axis lengths, argument dependent loop length
+        'einsum': dict(Ops='{"Einsum","Transpose","InsertAxis"}' if quick else '{"Einsum","Transpose","InsertAxis","Multiply","Sum"}', LeafSet='{1, 2}' if quick else '{1, 2, 12, 13, 17}', MaxOps=dx, MaxNodes=dx + 3, MaxLeaves=3),
+        'poly': dict(Ops='{"Polyval","PolyMul","PolyGrad","Legendre","InsertAxis"}' if quick else '{"Polyval","PolyMul","PolyGrad","Legendre","InsertAxis","Take","Multiply"}',
+                     LeafSet='{1, 30, 53}' if quick else '{1, 2, 13, 26, 30, 53, 57}', MaxOps=dx, MaxNodes=dx + 3, MaxLeaves=3),
+        'polycount': dict(Ops='{"PolyDegree","PolyNCoeffs","Take"}', LeafSet='{16, 56}' if quick else '{16, 22, 39, 56}', MaxOps=2 if quick else 3, MaxNodes=5, MaxLeaves=2),
+        'search': dict(Ops='{"SearchSorted","ArgSort","UniqueMask","UniqueInverse","SizesToOffsets","CompressIndices","Take"}', LeafSet='{15, 24, 27}' if quick else '{4, 5, 15, 21, 24, 27, 37, 39}', MaxOps=dx, MaxNodes=dx + 3, MaxLeaves=3),
+        'dyn': dict(Ops='{"MacroLenTab","RangeN","InsertAxisN","LoopConcat","LoopSum","Take","Inflate"}' if quick else '{"MacroLenTab","RangeN","InsertAxisN","LoopConcat","LoopSum","Take","Inflate","IntToFloat","Multiply"}',
+                    LeafSet='{4}' if quick else '{1, 4, 8}', MaxOps=4, MaxNodes=8, MaxLeaves=3),
+        'arglen': dict(Ops='{"MacroArgLoop","LoopSumN","IntToFloat","Take","Multiply"}' if quick else '{"MacroArgLoop","LoopSumN","IntToFloat","Multiply","Take","Inflate"}',
+                       LeafSet='{7, 15}' if quick else '{1, 7, 15, 39}', MaxOps=5, MaxNodes=8, MaxLeaves=3),
+        'monomial': dict(Ops='{"Monomial","Take","Multiply"}' if quick else '{"Monomial","Take","Multiply","Inflate","Sum"}', LeafSet='{1, 3, 13, 30}' if quick else '{1, 3, 4, 13, 15, 30, 39}', MaxOps=dx, MaxNodes=dx + 3, MaxLeaves=3),
     }
 
 
-# families over the extended vocabulary: generated exhaustively like the others, replayed on a sample in the quick tier
-EXTENDED = ('cxparts', 'cxpow', 'cxstruct', 'cxlin', 'einsum', 'poly', 'polycount', 'search', 'dyn')
+# families over the extended vocabulary: generated exhaustively like the others, replayed on a sample (110 quick / 1500 thorough per family)
+EXTENDED = ('cxparts', 'cxpow', 'cxstruct', 'cxlin', 'einsum', 'poly', 'polycount', 'search', 'dyn', 'arglen', 'monomial')
 
 
 def _steps_hook():
@@ -239,8 +245,8 @@ def run(rep):
     sel = []
     for n, fp in zip(names, per):
         rep.constants['family:' + n] = len(fp)
-        if quick and n in EXTENDED:
-            sel += exprs.select(fp, 110, rngx)
+        if n in EXTENDED:
+            sel += exprs.select(fp, 110 if quick else 1500, rngx)
         else:
             sel += [q for q in fp if not dag.unstable(q)] if quick else exprs.select(fp, 8000, rng)
     nexh = len(sel)
